@@ -23,6 +23,8 @@ from pyvc.interp import lift as _lift_scalar
 def lift_json(x):
     """Concrete JSON value -> SV with .conc set.  Containers get fresh constants constrained lazily
     by Z3Ops (which folds on .conc, so the term itself is rarely inspected)."""
+    if isinstance(x, SV):
+        return x
     if x is None or isinstance(x, (bool, int, float, str)):
         return _lift_scalar(x)
     return SV(_const_term(x), x)
@@ -41,6 +43,9 @@ def _const_term(x):
         _const_cache[key] = t
         _const_defs.append((t, x))
     return t
+
+
+_missing_term = z3.Const("missing_value", smt.V)
 
 
 def const_facts(x_sv):
@@ -65,6 +70,17 @@ def const_facts(x_sv):
                 go(c.t, e)
     go(x_sv.t, x_sv.conc)
     return out
+
+
+def C(x):
+    """statically known structure of x: its concrete value, or the shape of a built container"""
+    if x.known:
+        return x.conc
+    return x.shape
+
+
+def hasC(x):
+    return x.known or x.shape is not None
 
 
 class Z3Ops:
@@ -121,8 +137,8 @@ class Z3Ops:
         return lift_json(x)
 
     def _k(self, x, *ks):
-        if x.known:
-            return self.bool(_pykind(x.conc) in ks)
+        if hasC(x):
+            return self.bool(_pykind(C(x)) in ks)
         return smt.is_kind(x.t, *ks)
 
     def is_obj(self, x):
@@ -156,6 +172,8 @@ class Z3Ops:
     def truthy(self, x):
         if x.known:
             return self.bool(x.conc)
+        if x.shape is not None:
+            return self.bool(len(x.shape) > 0)
         return smt.truthy(x.t)
 
     def is_true(self, x):
@@ -170,7 +188,7 @@ class Z3Ops:
 
     def num(self, x):
         if x.known:
-            return z3.RealVal(str(Fraction(x.conc)))
+            return z3.RealVal(str(Fraction(x.conc))) if isinstance(x.conc, (int, float)) else z3.RealVal(0)
         return smt.num(x.t)
 
     def lt(self, a, b):
@@ -184,8 +202,8 @@ class Z3Ops:
 
     def len(self, x):
         """length of array / object / string (code points) as an integer term"""
-        if x.known:
-            return z3.IntVal(len(x.conc))
+        if hasC(x):
+            return z3.IntVal(len(C(x)) if isinstance(C(x), (list, dict, str)) else 0)
         return z3.If(kind(x.t) == K_LIST, llen(x.t), z3.If(kind(x.t) == K_DICT, dlen(x.t), z3.Length(sval(x.t))))
 
     def int_of_len(self, n):
@@ -193,7 +211,7 @@ class Z3Ops:
 
     def str_of(self, x):
         if x.known:
-            return z3.StringVal(x.conc)
+            return z3.StringVal(x.conc if isinstance(x.conc, str) else "")
         return sval(x.t)
 
     def mk_str(self, s):
@@ -209,24 +227,32 @@ class Z3Ops:
         return z3.simplify(a == b)
 
     def has(self, x, key):
+        if not isinstance(key, str) and z3.is_string_value(key):
+            key = key.as_string()
         if isinstance(key, str):
-            if x.known:
-                return self.bool(isinstance(x.conc, dict) and key in x.conc)
+            if hasC(x):
+                return self.bool(isinstance(C(x), dict) and key in C(x))
             key = z3.StringVal(key)
-        elif x.known:
-            if not isinstance(x.conc, dict) or not x.conc:
+        elif hasC(x):
+            if not isinstance(C(x), dict) or not C(x):
                 return self.false
-            return self.Or(*[key == z3.StringVal(k) for k in x.conc])
+            return self.Or(*[key == z3.StringVal(k) for k in C(x)])
         return z3.And(kind(x.t) == K_DICT, dhas(x.t, key))
 
     def get(self, x, key):
+        if not isinstance(key, str) and z3.is_string_value(key):
+            key = key.as_string()
         if isinstance(key, str):
-            if x.known:
-                return lift_json(x.conc[key])
+            if hasC(x):
+                if isinstance(C(x), dict) and key in C(x):
+                    return lift_json(C(x)[key])
+                return SV(_missing_term)        # total: arbitrary value outside the domain
             key = z3.StringVal(key)
-        elif x.known:
+        elif hasC(x):
             # symbolic key into a concrete object: an SV built by If-chain over the concrete members
-            items = list(x.conc.items())
+            if not isinstance(C(x), dict) or not C(x):
+                return SV(_missing_term)
+            items = list(C(x).items())
             t = lift_json(items[-1][1]).t
             for k, v in reversed(items[:-1]):
                 t = z3.If(key == z3.StringVal(k), lift_json(v).t, t)
@@ -234,8 +260,10 @@ class Z3Ops:
         return SV(dget(x.t, key))
 
     def all_idx(self, x, f):
-        if x.known:
-            return self.And(*[f(z3.IntVal(i), lift_json(e)) for i, e in enumerate(x.conc)])
+        if hasC(x):
+            if not isinstance(C(x), list):
+                return self.true
+            return self.And(*[f(z3.IntVal(i), lift_json(e)) for i, e in enumerate(C(x))])
         i = smt.fresh("q", smt.I)
         body = f(i, SV(lget(x.t, i)))
         if z3.is_true(body):
@@ -243,8 +271,10 @@ class Z3Ops:
         return z3.ForAll([i], z3.Implies(z3.And(0 <= i, i < llen(x.t)), body))
 
     def any_idx(self, x, f):
-        if x.known:
-            return self.Or(*[f(z3.IntVal(i), lift_json(e)) for i, e in enumerate(x.conc)])
+        if hasC(x):
+            if not isinstance(C(x), list):
+                return self.false
+            return self.Or(*[f(z3.IntVal(i), lift_json(e)) for i, e in enumerate(C(x))])
         i = smt.fresh("q", smt.I)
         body = f(i, SV(lget(x.t, i)))
         if z3.is_false(body):
@@ -253,8 +283,10 @@ class Z3Ops:
 
     def all_items(self, x, f):
         """f(key: z3 String, value: SV)"""
-        if x.known:
-            return self.And(*[f(z3.StringVal(k), lift_json(v)) for k, v in x.conc.items()])
+        if hasC(x):
+            if not isinstance(C(x), dict):
+                return self.true
+            return self.And(*[f(z3.StringVal(k), lift_json(v)) for k, v in C(x).items()])
         i = smt.fresh("q", smt.I)
         body = f(dkey(x.t, i), SV(dval(x.t, i)))
         if z3.is_true(body):
@@ -262,15 +294,19 @@ class Z3Ops:
         return z3.ForAll([i], z3.Implies(z3.And(0 <= i, i < dlen(x.t)), body))
 
     def any_items(self, x, f):
-        if x.known:
-            return self.Or(*[f(z3.StringVal(k), lift_json(v)) for k, v in x.conc.items()])
+        if hasC(x):
+            if not isinstance(C(x), dict):
+                return self.false
+            return self.Or(*[f(z3.StringVal(k), lift_json(v)) for k, v in C(x).items()])
         i = smt.fresh("q", smt.I)
         body = f(dkey(x.t, i), SV(dval(x.t, i)))
         return z3.Exists([i], z3.And(0 <= i, i < dlen(x.t), body))
 
     def exactly_one_idx(self, x, f):
-        if x.known:
-            fs = [f(z3.IntVal(i), lift_json(e)) for i, e in enumerate(x.conc)]
+        if hasC(x):
+            if not isinstance(C(x), list):
+                return self.false
+            fs = [f(z3.IntVal(i), lift_json(e)) for i, e in enumerate(C(x))]
             return self.Or(*[self.And(fs[i], *[self.Not(fs[j]) for j in range(len(fs)) if j != i]) for i in range(len(fs))])
         i = smt.fresh("q", smt.I)
         j = smt.fresh("q", smt.I)
@@ -280,8 +316,17 @@ class Z3Ops:
                                      z3.ForAll([j], z3.Implies(z3.And(0 <= j, j < llen(x.t), j != i), z3.Not(fj)))))
 
     def at(self, x, i):
-        if x.known and z3.is_int_value(i):
-            return lift_json(x.conc[i.as_long()])
+        if hasC(x) and z3.is_int_value(i):
+            if isinstance(C(x), list) and 0 <= i.as_long() < len(C(x)):
+                return lift_json(C(x)[i.as_long()])
+            return SV(_missing_term)
+        if hasC(x):
+            if not isinstance(C(x), list) or not C(x):
+                return SV(_missing_term)
+            t = lift_json(C(x)[-1]).t
+            for j in range(len(C(x)) - 2, -1, -1):
+                t = z3.If(i == j, lift_json(C(x)[j]).t, t)
+            return SV(t)
         return SV(lget(x.t, i))
 
     def idx_lt(self, i, n):
@@ -320,9 +365,14 @@ class Z3Ops:
 
     def V(self, sub, x):
         """validity of instance x under subschema `sub`"""
+        if sub.shape is not None and not sub.known:
+            from spec import drafts
+            return drafts.V_concrete_schema(self, sub.shape, x)
         if sub.known:
             from spec import drafts
             return drafts.V_concrete_schema(self, sub.conc, x)
+        if sub.t.eq(_missing_term) or x.t.eq(_missing_term):
+            return self.true        # outside the domain (unguarded branch of a total formula)
         return self.Vp(sub.t, x.t) if self.scope is None else self.Vp(self.scope, sub.t, x.t)
 
     def wf_ref_root(self, x):
@@ -330,6 +380,8 @@ class Z3Ops:
 
 
 def _pykind(c):
+    if isinstance(c, SV):
+        return -1
     if c is None:
         return K_NONE
     if isinstance(c, bool):
